@@ -6,7 +6,7 @@
 
    Labels = atomic actions of one goroutine:
      LAlloc c s o a p   a caller goroutine of client c: nextMessageID under the client's mutex
-                        (messageID += 2, uint32) for a call of (s,o,a) with payload p
+                        (messageID += 2, uint32, starting from 1) for a call of (s,o,a) with payload p
      LSend c i          the same goroutine, call number i of client c: MakeHandler (single-shot
                         filter on service/object/action/id, queue of one) then Send
      LReturn c i        Call reads the frame its handler queued and returns
@@ -81,7 +81,7 @@ Record state := {
   back : tag -> nat }.               (* ghost: frames sent back in answer *)
 
 Definition init : state :=
-  {| mid := fun _ => 0; issued := fun _ => O; rawc := fun _ => false; calls := fun _ _ => call0;
+  {| mid := fun _ => 1; issued := fun _ => O; rawc := fun _ => false; calls := fun _ _ => call0;
      c2s := fun _ => []; s2c := fun _ => []; mails := []; nraw := fun _ => O; rawty := fun _ _ => 0;
      ex := fun _ => O; back := fun _ => O |}.
 
@@ -90,17 +90,20 @@ Definition upd2 {A} (m : nat -> nat -> A) (c i : nat) (v : A) : nat -> nat -> A 
   fun c' i' => if Nat.eqb c' c && Nat.eqb i' i then v else m c' i'.
 Definition updt (m : tag -> nat) (t : tag) (v : nat) : tag -> nat := fun t' => if tag_eqb t' t then v else m t'.
 
-Definition id_of_index (i : nat) : N := (2 * (N.of_nat i + 1)) mod 2 ^ 32.
+(* NewClient starts messageID at 1: the ids of a client are 3, 5, 7, ... (mod 2^32) *)
+Definition id_of_index (i : nat) : N := (2 * (N.of_nat i + 1) + 1) mod 2 ^ 32.
 Definition next_id (m : N) : N := (m + 2) mod 2 ^ 32.
 
-(* server.handle's filter *)
-Definition filter_pass (t : N) : bool :=
+(* server.handle's filter in the pinned tree; the model takes the filter as a parameter (the
+   correspondence run instantiates it from the source) *)
+Definition pinned_filter_pass (t : N) : bool :=
   negb ((t =? T_Reply) || (t =? T_Error) || (t =? T_Event) || (t =? T_Cancelled)).
 Definition type_ok (t : N) : bool := (1 <=? t) && (t <=? 8).
 Definition is_cp (t : N) : bool := (t =? T_Call) || (t =? T_Post).
 
 Section Model.
 Variable k : cfg.
+Variable filter_pass : N -> bool.             (* the connection's message-type filter *)
 Variable target : N -> N -> N -> tgt.            (* does (service, object, action) name a method *)
 Variable fres : N -> N -> N -> bytes -> bytes.   (* what the method returns for a payload *)
 Variable okargs : N -> N -> N -> bytes -> bool.  (* the stub can decode the payload *)
@@ -223,10 +226,12 @@ Definition do_mbox (st : state) (s o : N) : state :=
   | None => st
   | Some (c, g, r) =>
       let st1 := set_mails st r in
+      (* with the defect, every type that reached the mailbox is dispatched on its action; without
+         it, only Call and Post are *)
+      if negb (runs (f_type g)) then st1 else
       match target (f_svc g) (f_obj g) (f_act g) with
       | Meth =>
-          if negb (runs (f_type g)) then st1
-          else if negb (okargs (f_svc g) (f_obj g) (f_act g) (f_payload g)) then answer st1 c g T_Error err_payload
+          if negb (okargs (f_svc g) (f_obj g) (f_act g) (f_payload g)) then answer st1 c g T_Error err_payload
           else
             let st2 := set_ex st1 (updt (ex st1) (f_tag g) (S (ex st1 (f_tag g)))) in
             if f_type g =? T_Post then st2
